@@ -302,9 +302,10 @@ def twin_probe(unit, max_fns=40):
     except Exception as e:
         return [{"id": "verus:%s:twin" % unit, "engine": "verus", "strength": "vacuity-probe", "status": "undecided",
                  "reason": "extraction failed: %s" % e}]
-    out = []
     fns = [it for it in meta["items"] if it["kind"] == "fn" or (it["kind"] == "stmts" and it.get("wrapper"))][:max_fns]
-    for it in fns:
+
+    def probe(args):
+        k, it = args
         if it["kind"] == "stmts":
             # statement-range wrapper: the probe goes in front of the range, the function that must fail is the wrapper
             key = it["twin_key"]
@@ -313,10 +314,14 @@ def twin_probe(unit, max_fns=40):
             key = it["emitted_as"] + "@" + it["container"]
         m2 = {"items": []}
         text = extract.process(tmpl, REPO, m2, twin=key)
-        dst = os.path.join(OUT, "%s__twin.rs" % unit)
+        dst = os.path.join(OUT, "%s__twin%d.rs" % (unit, k))
         with open(dst, "w") as f:
             f.write(text)
         r = run_verus(dst)
+        try:
+            os.remove(dst)
+        except OSError:
+            pass
         d = r["json"]
         rejected = False
         if d and "verification-results" in d:
@@ -332,7 +337,23 @@ def twin_probe(unit, max_fns=40):
             ob["status"] = "verified"
         else:
             ob.update(status="undecided", reason="vacuity: `assert(false)` at the start of %s was NOT rejected - its precondition may be contradictory" % it["emitted_as"])
-        out.append(ob)
+        return ob
+
+    # the probes are independent single-file verus runs: run them 8 at a time (extraction itself is serialised - FMT_LITERALS is global)
+    import threading
+    from concurrent.futures import ThreadPoolExecutor
+    lock = threading.Lock()
+    _process = extract.process
+
+    def locked_process(*a, **kw):
+        with lock:
+            return _process(*a, **kw)
+    extract.process = locked_process
+    try:
+        with ThreadPoolExecutor(max_workers=8) as ex:
+            out = list(ex.map(probe, list(enumerate(fns))))
+    finally:
+        extract.process = _process
     return out
 
 
